@@ -241,6 +241,58 @@ def localize(desc, v, env):
     return d
 
 
+def run_parts(desc, env):
+    """One forked child per pass: the forward reference pass, the reverse one, every suspect, the
+    dependent-rule reference and every schedule each get a process of their own, so that state which
+    lives for the life of a process (a class attribute, a default-argument list shared by several
+    rule classes, a module-level memo) cannot contaminate the reference and the schedules alike."""
+    recs, worst, last = [], "exit", None
+
+    def child(**kw):
+        nonlocal worst, last
+        d = dict(desc, **kw)
+        r = env.run(d)
+        last = r
+        recs.extend(r["records"])
+        if r["status"] in ("timeout", "harness-error"):
+            worst = r["status"]
+        return api_result(r)
+
+    R = {"alone": None, "writers": {}, "schedules": [], "errors": [], "suspects": [], "meta": {}}
+    if desc.get("want_alone", True):
+        A = child(schedules=[], alone_order="fwd", want_dep=False, localize=None)
+        if A is None or worst != "exit":
+            return dict(last, records=recs, status=worst if worst != "exit" else last["status"]), None
+        if A.get("alone") is None:
+            return dict(last, records=recs), dict(R, rejected=A.get("rejected"))
+        B = child(schedules=[], alone_order="rev", want_dep=False, localize=None)
+        alone = dict(A["alone"])
+        R["writers"] = dict(A.get("writers") or {})
+        for u, w in ((B or {}).get("writers") or {}).items():
+            R["writers"].setdefault(u, w)
+        R["errors"] = list(A.get("errors") or [])
+        R["meta"] = A.get("meta") or {}
+        if B and B.get("alone"):
+            sus = sorted(u for u in alone if alone[u] != B["alone"].get(u, alone[u]))
+            R["suspects"] = sus
+            for u in sus[:24]:
+                F = child(schedules=[], want_alone=False, suspect_rules=[u], want_dep=False, localize=None)
+                if F and u in (F.get("fresh") or {}):
+                    alone[u] = F["fresh"][u]
+        R["alone"] = alone
+        if desc.get("want_dep"):
+            D = child(schedules=[], want_alone=True, alone_order="fwd", want_dep=True, localize=None)
+            if D:
+                R["dep"], R["dep_preds"], R["dep_suspects"] = D.get("dep") or {}, D.get("dep_preds") or {}, D.get("dep_suspects") or []
+    # all schedules share one child: what one analysis leaves behind for the next is exactly what is
+    # being looked for; the *reference* above is what must come from untouched processes
+    if desc.get("schedules"):
+        S_ = child(want_alone=False, want_dep=False, localize=None, suspect_rules=None)
+        R["schedules"] = list((S_ or {}).get("schedules") or [{"error": "child-failed"}] * len(desc["schedules"]))
+    res = dict(last, records=recs, status=worst if worst != "exit" else "exit")
+    return res, R
+
+
 def judge(desc, env):
     if desc.get("engine") == "cli":  # a cli-repeat descriptor being replayed / minimised
         keep = ("out/j.json", "out/j.xml")
@@ -252,14 +304,14 @@ def judge(desc, env):
         V = [] if a == b else [{"class": "hash-seed-dependence", "target": None, "observed": {"reader": None, "writers": None}}]
         r1["c06_stats"] = {"compared": 0, "excused": 0, "analyses": 0, "rules_with_violations_alone": 0, "writers": []}
         return V, r1
-    res = env.run(desc)
+    res, R = run_parts(desc, env)
     if res["status"] in ("timeout", "harness-error"):
         return res["status"], res
-    R = api_result(res)
     if R is None:
         return "harness-error", dict(res, harness="api engine returned nothing (%s)" % res["status"])
     if R["alone"] is None and desc.get("want_alone", True):
         return None, res
+    res["c06_R"] = R
     sc = R.get("schedules") or []
     if sc and ("passes" not in sc[0] or sc[0]["passes"][0]["err"]):
         return None, res  # the canonical all-phases check of this file raises: C19's subject
@@ -279,8 +331,7 @@ def judge(desc, env):
             d2["schedules"].append({"perm_seed": None, "disable": [], "enable": [w], "phase": {}, "passes": [{"all": True, "skip": []}]})
             # ... and moved to the first phase, so that every other rule analyses after it
             d2["schedules"].append({"perm_seed": None, "disable": [], "enable": [w], "phase": {w: 1}, "passes": [{"all": True, "skip": []}]})
-        r2 = env.run(d2)
-        R2 = api_result(r2)
+        r2, R2 = run_parts(d2, env)
         if R2 is not None and R2.get("alone") is not None:
             V2, st2 = evaluate(d2, R2)
             for k in ("compared", "excused", "analyses"):
@@ -357,6 +408,7 @@ def plan(tier, seed):
     jobs += [{"prop": PROP, "mode": "cli-repeat", "i": i, "seed": H(seed, tier, PROP, "cli-repeat", i)} for i in range(30 if tier == "quick" else 1500)]
     # the driver does not import vsg: the shards compute the triple list, job i takes every 16th
     jobs += [{"prop": PROP, "mode": "exotic", "i": i, "of": 16, "seed": seed} for i in range(16)]
+    jobs += [{"prop": PROP, "mode": "ownswarm", "i": i, "of": 16, "seed": seed} for i in range(16)]
     jobs += common.regress_jobs(PROP, 1)
     return jobs
 
@@ -478,6 +530,53 @@ def run_exotic(job, env):
     return out.done()
 
 
+def swarm_pairs():
+    """(option, value) for every documented non-boolean option value, `style` family included."""
+    dom = workload.option_domains()
+    out = []
+    for o in sorted(dom):
+        if o in ("case", "indent_size", "length"):
+            continue
+        for v in dom[o]:
+            if v not in ("yes", "no"):
+                out.append((o, v))
+    return out
+
+
+def run_ownswarm(job, env):
+    """The hand-written designs of /verif/corpus, each with ONE documented option value switched on
+    for every rule that has the option (a 'swarm' configuration)."""
+    out = common.JobResult(job)
+    own = sorted(p for p, s in workload.corpus() if p.startswith(os.path.join(workload.HERE, "corpus")))
+    cases = [(p, o, v) for p in own for (o, v) in swarm_pairs()]
+    for p, opt, val in cases[job["i"] :: job["of"]]:
+        d = gen_desc(H(job["seed"], "ownswarm", os.path.basename(p), opt, val), 1)
+        data = workload.read(p)
+        d["sandbox"] = [workload.sb_entry("x.vhd", data)]
+        d["style"] = None
+        d["base_config"] = {"rule": {r[0]: {opt: val} for r in runner.RULES if r[1] != 0 and opt in r[6]}}
+        d["meta"].update({"from": "corpus/" + os.path.basename(p), "size": len(data), "digest": wire.digest(data), "tags": [], "style": None, "swarm": {opt: val}})
+        d["hashseed_class"] = job.get("class", 0)
+        V, res = judge(d, env)
+        if V is None:
+            out.skipped("file-not-accepted")
+            continue
+        if not isinstance(V, list):
+            out.account(d, res, V, None, nontrivial=False)
+            continue
+        st = res["c06_stats"]
+        out.account(d, res, V, (d["meta"]["digest"], "swarm", opt, val), nontrivial=st["analyses"] >= 50)
+        out.stat("swarm_configurations", 1)
+        out.stat("rule_reports_compared", st["compared"])
+        out.stat("rule_analyses_executed", st["analyses"])
+        out.d["steps"] += st["analyses"]
+        for w in (res["c06_R"].get("suspects") or []):
+            out.probe("alone_reference_order_sensitive:" + w)
+        if V:
+            out.violation(res.get("c06_followup_desc") or d, V)
+    return out.done()
+
+
 def run_cli_repeat(job, env):
     """'Reports the same violations every time it is repeated', at CLI level: the same command in
     two pristine processes of different hash-seed classes (check, and separately --fix)."""
@@ -516,6 +615,8 @@ def run_job(job, env):
         return run_cli_repeat(job, env)
     if job["mode"] == "exotic":
         return run_exotic(job, env)
+    if job["mode"] == "ownswarm":
+        return run_ownswarm(job, env)
     out = common.JobResult(job)
     if job["mode"] == "regress":
         d = common.regress_desc(job)
@@ -539,7 +640,7 @@ def run_job(job, env):
         out.account(d, res, V, None, nontrivial=False)
         return out.done()
     st = res["c06_stats"]
-    R = api_result(res)
+    R = res["c06_R"]
     nsch = len([s for s in R["schedules"] if "passes" in s])
     out.d["evals"] += max(0, nsch - 1)  # every executed schedule is a case; account() adds one
     keys = [(d["meta"]["digest"], d["meta"]["style"], common.stable(s)) for s in d["schedules"]]
@@ -560,8 +661,11 @@ def run_job(job, env):
         out.probe("alone_reference_order_sensitive:" + w)
     if job["mode"] == "repeat" and not V:
         # the same descriptor in a pristine process of another hash-seed class
-        r2 = env.run(d, alt=True)
-        R2 = api_result(r2)
+        class _Alt:
+            def run(self, dd, keep_files=()):
+                return env.run(dd, keep_files=keep_files, alt=True)
+
+        r2, R2 = run_parts(d, _Alt())
         out.probe("repeated_in_other_hashseed_class")
         if R2 is None or R2["alone"] != R["alone"] or [s.get("passes") for s in R2["schedules"]] != [s.get("passes") for s in R["schedules"]]:
             bad = None
